@@ -1,5 +1,5 @@
 ---- MODULE MC_RpcBind ----
 EXTENDS RpcBind
-MC_Codes == {"acc", "user", "prov"}
+MC_Codes == {"acc", "user", "prov", "nack"}   \* "nack" in slot 0: a negotiate_ack is not an acceptance
 MC_Toks == {0, 1}
 ====
